@@ -297,13 +297,15 @@ Limit(open, ps, close) ==
     IF AllOptional(ps) THEN OptAll(Lits(open)) \o ps \o OptAll(Lits(close))
     ELSE Lits(open) \o ps \o Lits(close)
 
-\* the operand of the radical renders to one lone opening bracket
+\* the operand of the radical renders to one lone opening bracket: its required items are exactly
+\* one bracket (items that are DON'T-CARE -- an empty matrix, a delimiter without m:val -- do not count)
+Required(ps) == SelectSeq(ps, LAMBDA it : it.br = "" /\ ~it.opt)
+Optional(ps) == SelectSeq(ps, LAMBDA it : it.br = "" /\ it.opt)
 LoneBracket(s) ==
     /\ s # <<>>
-    /\ LET q == SelectSeq(PatSeq(s[1]), LAMBDA it : it.br = "") IN
-       /\ Len(q) = 1 /\ ~q[1].opt
-       /\ \E b \in DOMAIN Closer : q[1].as = {b}
-BracketOf(s) == LET q == SelectSeq(PatSeq(s[1]), LAMBDA it : it.br = "") IN CHOOSE b \in q[1].as : TRUE
+    /\ LET q == Required(PatSeq(s[1])) IN
+       Len(q) = 1 /\ \E b \in DOMAIN Closer : q[1].as = {b}
+BracketOf(s) == CHOOSE b \in Required(PatSeq(s[1]))[1].as : TRUE
 
 DelimPat(a, dflt) ==
     IF a.st = "noel" THEN <<Lit(dflt)>>
@@ -321,6 +323,7 @@ PatNode(n) ==
            LET dp == Limit(<<"[">>, PatSlot(n.deg), <<"]">>) IN
            IF LoneBracket(n.e)
            THEN <<Lit("\\sqrt")>> \o dp \o <<Lit("{"), Marker(Closer[BracketOf(n.e)])>>
+                \o Optional(PatSeq(n.e[1]))
                 \o OptAll(Cat([i \in 1..(Len(n.e) - 1) |-> PatSeq(n.e[i + 1])]))
            ELSE <<Lit("\\sqrt")>> \o dp \o PWrap(PatSlot(n.e))
       [] n.k = "nary" ->
